@@ -350,7 +350,7 @@ fn eval_step_expr(
 ) -> error::Result<Vec<dom::XmlNode>> {
     match step {
         expr::Step::Current => Ok(vec![node]),
-        expr::Step::Parent => Ok(node.parent_node().into_iter().collect()),
+        expr::Step::Parent => Ok(parent(&node).into_iter().collect()),
         expr::Step::Test(axis, test, predicate) => {
             eval_axis_node_test(axis, test, predicate, node, context)
         }
@@ -379,7 +379,7 @@ fn eval_axis_node_test(
             expr::AxisName::Following => following(node),
             expr::AxisName::FollowingSibling => following_sibling(node),
             expr::AxisName::Namespace => namespace(node),
-            expr::AxisName::Parent => node.parent_node().into_iter().collect(),
+            expr::AxisName::Parent => parent(&node).into_iter().collect(),
             expr::AxisName::Preceding => preceding(node),
             expr::AxisName::PrecedingSibling => preceding_sibling(node),
             expr::AxisName::Current => vec![node],
@@ -539,13 +539,22 @@ fn root(node: dom::XmlNode) -> Vec<dom::XmlNode> {
     }
 }
 
+/// The parent of a node in the XPath data model: the parent of an attribute node is its element
+/// (`parent_node()` of a DOM attribute is `None`).
+fn parent(node: &dom::XmlNode) -> Option<dom::XmlNode> {
+    match node {
+        dom::XmlNode::Attribute(v) => v.owner_element().map(|e| e.as_node()),
+        _ => node.parent_node(),
+    }
+}
+
 fn ancestor(node: dom::XmlNode) -> Vec<dom::XmlNode> {
     let mut nodes = vec![];
 
-    let mut parent = node.parent_node();
-    while let Some(p) = parent {
+    let mut next = parent(&node);
+    while let Some(p) = next {
         nodes.push(p.clone());
-        parent = p.parent_node();
+        next = parent(&p);
     }
 
     nodes
@@ -609,6 +618,13 @@ fn descendant_and_self(node: dom::XmlNode) -> Vec<dom::XmlNode> {
 
 fn following(node: dom::XmlNode) -> Vec<dom::XmlNode> {
     let mut nodes = vec![];
+
+    // the content of its element follows an attribute node in document order
+    if let dom::XmlNode::Attribute(_) = node {
+        if let Some(owner) = parent(&node) {
+            nodes.append(&mut descendant(owner));
+        }
+    }
 
     for a in ancestor_and_self(node) {
         for n in following_sibling(a) {
